@@ -1,13 +1,116 @@
-import Compio.Model.Wake
+/-
+C03 — a wake-up from any thread is never lost.
+
+Model: Compio.Model.Wake (N waker threads × the runtime thread × a deterministic kernel), every interleaving is
+a `List Event`. All accesses to the awake flag and the task word go through the definitions regenerated from
+the sources (Gen/AwakeFlag.lean, Gen/TaskState.lean); the order of the calls in the driver's `poll`/`flush`,
+in `Remote::schedule`, `drain_sync`, `tick`, `block_on` and compio-compat's `drive` is regenerated into
+Gen/WakeOrder.lean and compared with the order the model executes (section "call order").
+
+The theorems are for sequentially consistent atomics. Reorderings permitted by the orderings actually written
+in the source are NOT modelled; `orderings_sufficient` checks that the orderings in the source are at least the
+table the SC argument relies on.
+
+`Good cfg`: the code as it is now — `flush` arms the notifier (b814cbc) and `Remote::schedule` wakes the driver
+after every push (e1c512a). The pre-fix orders are refuted in Compio.Cex.C03.
+-/
+import Compio.Lemmas.WakeInv
 import Compio.Gen.WakeOrder
 
 namespace Compio.Props.C03
-open Compio.Wake Compio.Gen
+open Compio.Wake Compio.Gen Compio.TaskWord
 
-/-- flag algebra: the three operations keep the byte inside {0,1,2,3} -/
+/-- the configuration switches describe the code as it is in the tree -/
+def Good (cfg : Cfg) : Prop := cfg.flushArms = true ∧ cfg.rewake = true
+
+theorem inv_of_reachable {cfg : Cfg} {s : State} (hg : Good cfg) (h : Reachable cfg s) : Inv s :=
+  inv_reachable hg.1 hg.2 h
+
+/-! ### flag algebra -/
+
+/-- the three operations of `AwakeFlag`, as coded, keep the byte inside {0,1,2,3} -/
 theorem flag_closed (w : Nat) (h : w ≤ 3) :
     AwakeFlag.set w ≤ 3 ∧ (AwakeFlag.reset w).1 ≤ 3 ∧ (AwakeFlag.wake w).1 ≤ 3 := by
   have : w = 0 ∨ w = 1 ∨ w = 2 ∨ w = 3 := by omega
   rcases this with rfl | rfl | rfl | rfl <;> decide
+
+/-- `wake` always leaves the NOTIFIED bit set and reports whether the byte was non-zero; `reset` returns exactly
+the NOTIFIED bit and leaves IDLE; `set` leaves AWAKE without NOTIFIED -/
+theorem flag_ops (w : Nat) (h : w ≤ 3) :
+    nbit (AwakeFlag.wake w).1 = true ∧ (AwakeFlag.wake w).2 = (w != 0) ∧
+    (AwakeFlag.reset w).1 = 0 ∧ (AwakeFlag.reset w).2 = nbit w ∧ AwakeFlag.set w = 2 ∧ AwakeFlag.new = 0 :=
+  ⟨wake_nbit h, wake_ret h, reset_fst w, reset_snd h, set_eq w, new_eq⟩
+
+theorem flag_in_range {cfg : Cfg} {s : State} (hg : Good cfg) (h : Reachable cfg s) : s.flag ≤ 3 :=
+  (inv_of_reachable hg h).flagLe
+
+/-! ### the `pending` counter -/
+
+/-- in every reachable state `pending` is an upper bound of the queue length — it counts the queued ids, the
+reservations of threads that have not pushed yet and what the consumer has popped but not yet subtracted — and no
+`fetch_sub` ever wrapped around -/
+theorem pending_ge_sync {cfg : Cfg} {s : State} (hg : Good cfg) (h : Reachable cfg s) :
+    s.sync.length ≤ s.pending ∧ s.uflow = false ∧
+    s.pending = s.sync.length + cnt s resvP + drained s.rt := by
+  have hi := inv_of_reachable hg h
+  exact ⟨by have := hi.pend; omega, hi.noUflow, hi.pend⟩
+
+/-! ### SCHEDULED means queued or held -/
+
+/-- a live task whose SCHEDULED bit is set is in the sync queue, in the hot list, or a waker thread that passed
+the SCHEDULED check still holds it (between `start_scheduling` and the push) -/
+theorem scheduled_is_queued {cfg : Cfg} {s : State} (hg : Good cfg) (h : Reachable cfg s) (t : Nat)
+    (hs : TaskState.isScheduled (s.word t) = true) (hd : s.dropped t = false)
+    (hc : TaskState.isCancelled (s.word t) = false) :
+    t ∈ s.sync ∨ t ∈ s.hot ∨ ∃ w, w < s.cfg.nw ∧ holdsP t (s.wk w) = true := by
+  rcases (inv_of_reachable hg h).sched t hs hd hc with h1 | h1 | h1
+  · exact Or.inl h1
+  · exact Or.inr (Or.inl h1)
+  · exact Or.inr (Or.inr ((cnt_pos_iff _ _).1 h1))
+
+/-! ### no lost wake -/
+
+/-- the obligation created by a wake of task t that has returned: the id is in the hot list (the runtime polls
+with a zero timeout), or it is in the sync queue and the runtime thread is covered (`cov`: it will drain before it
+can block — see `cov_not_blocked`) or the pusher is just about to wake the driver, or another waker thread holds
+the id and has not pushed yet -/
+def Owes (s : State) (t : Nat) : Prop :=
+  t ∈ s.hot ∨
+  (t ∈ s.sync ∧ (cov s = true ∨ ∃ w, w < s.cfg.nw ∧ aboutP (s.wk w) = true)) ∨
+  ∃ w, w < s.cfg.nw ∧ holdsP t (s.wk w) = true
+
+/-- NO LOST WAKE (tasks): in every reachable state, if some `wake()` on task t has returned since the last poll
+of t started (`woken`; coalesced calls included) and t is neither dropped (completed) nor cancelled, the
+obligation holds. The environment cannot make it disappear: it is a state invariant. -/
+theorem no_lost_wake_task {cfg : Cfg} {s : State} (hg : Good cfg) (h : Reachable cfg s) (t : Nat)
+    (hw : s.woken t = true) (hd : s.dropped t = false) (hc : TaskState.isCancelled (s.word t) = false) :
+    Owes s t := by
+  have hi := inv_of_reachable hg h
+  have hs := hi.wokenSched t hw
+  rcases hi.sched t hs hd hc with h1 | h1 | h1
+  · refine Or.inr (Or.inl ⟨h1, ?_⟩)
+    have hne : s.sync ≠ [] := by intro e; rw [e] at h1; cases h1
+    rcases hi.covSync hne with h2 | h2
+    · exact Or.inl h2
+    · exact Or.inr ((cnt_pos_iff _ _).1 h2)
+  · exact Or.inl h1
+  · exact Or.inr (Or.inr ((cnt_pos_iff _ _).1 h1))
+
+/-- coalescing never drops: the ghost flag `woken t` is raised by EVERY returning call whose linearisation point
+(`start_scheduling`) lies after the start of the last poll of t, whether it pushed or was coalesced -/
+theorem returning_wake_is_recorded (s s' : State) (w t : Nat)
+    (hpc : (s.wk w).pc = .fin) (hk : (s.wk w).kind = .task t) (hseq : (s.wk w).seq0 = s.pollSeq t)
+    (hs : wStep s w = some s') : s'.woken t = true ∧ (s'.wk w).pc = .idle := by
+  unfold wStep at hs
+  simp only [hpc, hk] at hs
+  simp only [Option.some.injEq] at hs
+  subst hs
+  simp [setWk, hseq]
+
+/-- NO LOST WAKE (main future): if a wake of the main future has returned and no poll of it started since,
+the runtime thread is covered -/
+theorem no_lost_wake_main {cfg : Cfg} {s : State} (hg : Good cfg) (h : Reachable cfg s)
+    (hw : s.mainWoken = true) : covM s = true :=
+  (inv_of_reachable hg h).covMain hw
 
 end Compio.Props.C03
